@@ -108,6 +108,24 @@ pub fn handle(op: &str, a: &[&str]) -> Option<Resp> {
     }
 }
 
+/// ASCII letters with their case swapped (field names are compared exactly: `get("source")` must
+/// not find `Source`)
+fn swap_case(k: &str) -> String {
+    k.chars()
+        .map(|c| if c.is_ascii_uppercase() { c.to_ascii_lowercase() } else if c.is_ascii_lowercase() { c.to_ascii_uppercase() } else { c })
+        .collect()
+}
+
+/// the names looked up on a paragraph: its own names, their case-swapped variants, one absent name
+/// (same list as Driver/Deb.lean `lookupKeys`)
+fn lookup_keys(keys: Vec<String>) -> Vec<String> {
+    let own = dedup(keys);
+    let mut all = own.clone();
+    all.extend(own.iter().map(|k| swap_case(k)));
+    all.push("Zz".to_string());
+    dedup(all)
+}
+
 fn dedup(v: Vec<String>) -> Vec<String> {
     let mut out: Vec<String> = vec![];
     for x in v {
@@ -129,8 +147,7 @@ pub fn view_doc(s: &str) -> (String, Option<Deb822>) {
             let looks: Vec<String> = ps
                 .iter()
                 .map(|p| {
-                    let mut ks = dedup(p.keys().collect());
-                    ks.push("Zz".to_string());
+                    let ks = lookup_keys(p.keys().collect());
                     ks.iter()
                         .map(|k| {
                             format!(
@@ -168,7 +185,7 @@ fn check_content(d: &Deb822, expected: &[Vec<(String, String)>]) -> Option<Strin
         if p.keys().collect::<Vec<_>>() != names {
             return Some("keys() differs from field names in file order".to_string());
         }
-        for k in dedup(names.clone()).iter().chain(std::iter::once(&"Zz".to_string())) {
+        for k in lookup_keys(names.clone()).iter() {
             let first = e.iter().find(|(n, _)| n == k).map(|(_, v)| v.clone());
             let all: Vec<String> = e.iter().filter(|(n, _)| n == k).map(|(_, v)| v.clone()).collect();
             if p.get(k) != first {
